@@ -104,8 +104,21 @@ Example ex_stale : exists g, accept ex_cfg ex_fs' ex_trace = Accepted g /\
   lookup g [3;4] = Some (KFile, 11) /\ lookup g [2;5] = Some (KFile, 13).
 Proof. eexists. vm_compute. repeat split; reflexivity. Qed.
 
+(* the shape of a FAILED run_mapping (a worker died): the result buffer (6), the buffer of the
+   assignment stage inside it (6/2) and the assignment file a surviving worker wrote there
+   are removed in the `finally` block, then the tmp directory; log and JSON are written *)
+Example ex_failed_run_accepted : exists g,
+  accept ex_cfg ex_fs
+    [ Mkdir [3;5]; Create [2;2] true 100; Unlink [2;2]; Mkdir [3;6]; OpenR [1;1];
+      Mkdir [3;6;2]; Create [3;6;2;7] true 102;
+      ListDir [3;6]; ListDir [3;6;2]; Unlink [3;6;2;7]; Rmdir [3;6;2]; Rmdir [3;6]; Rmdir [3;5];
+      Create [2;2] false 103; Create [2;1] true 104; Return false ] = Accepted g /\
+  lookup g [3;6] = None /\ lookup g [3;5] = None /\ lookup g [3;9;1] = Some (KFile, 7).
+Proof. eexists. vm_compute. repeat split; reflexivity. Qed.
+
 (* what the acceptor refuses *)
-(* F9: a mapping run that fails and leaves result_buffer_* (6) behind *)
+(* a mapping run that fails and leaves its result buffer (6) behind: what run_mapping did
+   before the repair of finding F9 (the buffer was removed on the success path only) *)
 Example ex_f9_rejected :
   accept ex_cfg ex_fs [Mkdir [3;5]; Mkdir [3;6]; OpenR [1;1]; Rmdir [3;5]; Return false] = Rejected 4 7.
 Proof. vm_compute. reflexivity. Qed.
